@@ -42,7 +42,8 @@ LINK_HOSTILE = ["[sp](<http://x.y/a b>)", "[t](http://x.y 'single')", "[p](http:
                 "[nested [br]](http://x.y)", "[e](http://x.y/(a))", "www.bare.example.org"]
 HTML_INL = ["<span class=\"a b\">", "</span>", "<br/>", "<b>", "</b>", "<a href=\"http://x.y/z\" title=\"t's\">", "</a>"]
 TAG_INL = ["{% tag %}", "{% tag a=1 b=\"two words\" %}", "{{ var }}", "{{ a.b | f(\"x y\") }}", "{# note's #}",
-           "<!-- c \"q\" -->", "{% f %}{% /f %}", "{% if x %}", "{% endif %}"]
+           "<!-- c \"q\" -->", "{% f %}{% /f %}", "{% if x %}", "{% endif %}", "{% t x=\"a...b\" %}", "{{ a...b }}",
+           "<!-- wait... \"q\" it's -->", "{# it's... so #}"]
 ESCAPES = ["\\*", "\\_", "\\#", "\\[x\\]", "\\>", "a\\|b", "&amp;", "&lt;", "&#35;", "&copy;"]
 HAZ = ["-", "+", "*", ">", "#", "##", "1.", "2)", "10.", "---", "===", "=", "--", "***", "___", "```", "~~~",
        ">>", "|", "+x", "#tag", "1.5", "\\", "[x]", "[ ]", "<", "&", ":", "- - -", "* * *", "~", "|a|b|", "<div>"]
@@ -83,6 +84,12 @@ def _could_start_block(w: str) -> bool:
     if w[:1] in "\\&" and len(w) > 1:
         return False
     return w[:1] in _BLOCKSTART or (w[:1].isdigit() and (w.rstrip(".)") != w))
+
+
+def _unindent_fence(b: dict) -> None:
+    if b.get("deep"):
+        b["lines"] = [ln for ln in b["lines"] if ln != b["deep"]]
+    b["indent"] = 0
 
 
 class Gen:
@@ -327,7 +334,17 @@ class Gen:
             lines.pop()  # trailing blank lines of a code block: known C04 deviation, hostile only
         while lines and lines[0].strip() == "" and not self.hostile:
             lines.pop(0)
-        return {"t": "fence", "ch": ch, "n": n, "info": info, "lines": lines}
+        ind = r.choice([0, 0, 0, 1, 2, 3]) if ctx == "top" else 0
+        if ind and r.random() < 0.6:
+            # a bare fence run that is content only because it sits >= 4 columns in (source fence indented by
+            # `ind`): once the block is re-emitted flush with its container it would close the fence early
+            self.feats.add("indented-fence-with-deep-fence-run")
+            k = r.randint(4 - ind, 3)
+            deep = " " * k + ch * r.randint(n, n + 1)
+            lines.insert(r.randint(0, len(lines)), deep)
+            lines.append("after")
+            return {"t": "fence", "ch": ch, "n": n, "info": info, "lines": lines, "indent": ind, "deep": deep}
+        return {"t": "fence", "ch": ch, "n": n, "info": info, "lines": lines, "indent": ind}
 
     def table(self) -> dict:
         r = self.r
@@ -404,8 +421,13 @@ class Gen:
                     else:
                         b["bullet"] = {"-": "*", "*": "+", "+": "-"}[out[-1]["bullet"]]
                 self.feats.add("adjacent-lists")
-            if out and out[-1]["t"] == "list" and b["t"] == "icode":
-                b = self.para()
+            if out and out[-1]["t"] in ("list", "fndef") and b["t"] == "icode":
+                b = self.para()  # an indented chunk after a list / footnote definition continues that block
+            if out and out[-1]["t"] in ("list", "fndef") and b["t"] == "fence" and b.get("indent"):
+                _unindent_fence(b)  # an indented fence after a list would belong to the last item
+            if out and out[-1]["t"] == "icode" and b["t"] == "icode":
+                # two indented chunks separated by a blank line are ONE code block
+                b = {"t": "fence", "ch": "~", "n": 7, "info": "", "lines": b["lines"]}
             if out and out[-1]["t"] == "para" and b["t"] == "icode" and ctx != "top":
                 b = self.para()
             out.append(b)
@@ -538,7 +560,8 @@ class Ser:
             return X([f"[{b['label']}]: {b['dest']}" + (f" {b['title']}" if b["title"] else "")])
         if t == "fence":
             f = b["ch"] * b["n"]
-            return X([f + b["info"]] + list(b["lines"]) + [f])
+            ind = " " * b.get("indent", 0)
+            return X([ind + f + b["info"]] + [(ind + ln) if ln else "" for ln in b["lines"]] + [ind + f])
         if t == "icode":
             return X(["    " + ln for ln in b["lines"]])
         if t == "table":
@@ -594,6 +617,9 @@ def gen_doc(seed: int, profile: str = "core", layout_seed: int | None = None, wi
     g = Gen(seed, profile)
     n = g.r.randint(*nblocks)
     tree = g.blocks(0, "top", n)
+    if tree[0]["t"] == "fence":
+        # the document is stripped before parsing: a leading fence cannot be indented
+        _unindent_fence(tree[0])
     if tree[0]["t"] == "icode":
         # flowmark documents dedent + strip of its input: a leading indented code block is not one
         tree[0] = {"t": "fence", "ch": "~", "n": 8, "info": "", "lines": tree[0]["lines"]}
